@@ -446,9 +446,14 @@ def classify_history(chk, P, fresh, cex, last, bad, seq_cex, hist_index=None):
 def main():
     chk = common.Check('C10')
     import po_common as P
-    proved = chk.prove('I18n.Props.C10', generated=('polib',))
-    problems = ' '.join(chk.lean.problems)
-    driver_ok = os.path.exists(common.driver_path()) and not any('untranslatable' in s for s in chk.lean.translation.values()) \
+    proved = chk.prove('I18n.Props.C10', generated=('polib', 'polib4us'), extra_targets=())
+    # the tie by translation: lib/polib4us.py regenerated from the current source and proved equal to the model's loader front end (Props/C10Tie.lean)
+    tie_ok = common.prove_tie(chk, 'I18n.Props.C10Tie', ('polib4us',),
+                              'polib_unescape / the flags setter / translated / Codecs._is_ignored_comment / Codecs.open regenerated from the current lib/polib4us.py '
+                              'are no longer proved equal to unescape / setFlags / translated / isIgnoredComment / decodeFile + preprocess of Model/Po.lean '
+                              '(generated_*_eq_model and the theorems restated about them)')
+    problems = ' '.join(p for p in chk.lean.problems if not p.startswith('I18n.Props.C10Tie'))
+    driver_ok = os.path.exists(common.driver_path()) and not any('untranslatable' in s for k, s in chk.lean.translation.items() if k != 'polib4us') \
         and 'Driver' not in problems and 'I18n.Model' not in problems and 'I18n.Generated' not in problems
     rng = chk.rng
     T = chk.thorough
@@ -480,8 +485,13 @@ def main():
             r, _stderr, _exc = P.impl_unescape(enc, s)
             lines.append(line); impls.append(r)
         dis, _ = chk.stream('po-unescape', lines, impls)
+        if tie_ok:      # the twins: the same inputs through the functions REGENERATED from lib/polib4us.py (Generated.Polib4us)
+            chk.stream('po-unescape-generated', [l.replace('po unescape ', 'po gunescape ', 1) for l in lines], impls)
         pi = preprocess_inputs(rng, n_unit // 2)
-        chk.stream('po-preprocess', [f'po preprocess {P.hexchars(t)}' for t in pi], [P.impl_preprocess(t) for t in pi])
+        pre_impls = [P.impl_preprocess(t) for t in pi]
+        chk.stream('po-preprocess', [f'po preprocess {P.hexchars(t)}' for t in pi], pre_impls)
+        if tie_ok:
+            chk.stream('po-preprocess-generated', [f'po gpreprocess {P.hexchars(t)}' for t in pi], pre_impls)
         di = detect_inputs(rng, n_unit // 2)
         lines, impls = [], []
         for d in di:
@@ -491,6 +501,12 @@ def main():
             lines.append(f'po detect {o} {d.hex() or "-"}'); impls.append(P.impl_detect(d))
         chk.stream('po-detect', lines, impls)
         fi = flagline_inputs(rng, n_unit // 4)
+        fitems = [[l[3:]] for l in fi] + [[l[3:], ' x ,y\t'] for l in fi[:200]]
+        fitems = [it for it in fitems if all(x and '\n' not in x for x in it)]
+        set_impls = [P.impl_setflags(it) for it in fitems]
+        chk.stream('po-setflags', ['po setflags ' + ' '.join(P.hexchars(x) for x in it) for it in fitems], set_impls)
+        if tie_ok:
+            chk.stream('po-setflags-generated', ['po gsetflags ' + ' '.join(P.hexchars(x) for x in it) for it in fitems], set_impls)
         fdatas = [(l + '\nmsgid "a"\nmsgstr "b"\n').encode('UTF-8') for l in fi]
         fdatas = [b'msgid ""\nmsgstr "Content-Type: text/plain; charset=UTF-8\\n"\n\n' + d for d in fdatas]
         dis, _ = chk.stream('po-flags', [P.load_line(d)[0] for d in fdatas], [P.impl_load(d) for d in fdatas])
